@@ -42,7 +42,7 @@ def cases(tier, sd):
     for name in MODS:
         for r in range(reps):
             out.append(dict(kind='module', module=name, seed=100 * sd + r))
-    for r in range(2 if tier == "quick" else 8):
+    for r in range(4 if tier == "quick" else 8):      # EdS and LCDM backgrounds
         out.append(dict(kind='icpert', seed=100 * sd + r))
     return out
 
@@ -160,6 +160,11 @@ def _run_module(spec, res, tag_extra=""):
         try:
             t, xs, ys, zs = sp.symbols('t x y z', real=True, positive=True)
             gs = sp.Matrix(np.array(M.gammadown3(t, xs, ys, zs, analytical=True), dtype=object).tolist())
+            gs_again = sp.Matrix(np.array(M.gammadown3(t, xs, ys, zs, analytical=True), dtype=object).tolist())
+            res['observations'] += 1
+            if gs_again != gs:
+                common.add_violation(res, f"{name}.gammadown3 analytical=True: a second call returns "
+                                          "other expressions than the first", {})
             gotall = np.asarray(M.gammadown3(t0, x, y, z)).reshape(3, 3, -1)
             want, got = [], []
             for i in range(4):
@@ -255,30 +260,40 @@ def _run_module(spec, res, tag_extra=""):
               ex['Kretschmann'], 1e-9)
         # outward null expansion of r = const surfaces from the exact fields:
         # Theta = D_i s^i + K_ij s^i s^j - K,  s^i = gamma^ij d_j r / |dr|
-        r = np.sqrt(x * x + y * y + z * z)
-        X3 = np.array([x, y, z])
-        dr = X3 / r
-        ddr = (np.einsum('ij,...->ij...', np.eye(3), 1 / r)
-               - np.einsum('i...,j...->ij...', X3, X3) / r ** 3)
-        X = (np.full(shp, t0), x, y, z)
-        adm = S.adm_from_gJ2(st.gJ2(X))
-        gu = ex['gammaup3']
-        dgu = np.array([[[adm['gammaup'][i][j].d[c + 1] for j in range(3)]
-                         for i in range(3)] for c in range(3)])     # [c,i,j]
-        n2 = np.einsum('ij...,i...,j...->...', gu, dr, dr)
-        dn2 = (np.einsum('cij...,i...,j...->c...', dgu, dr, dr)
-               + 2 * np.einsum('ij...,ci...,j...->c...', gu, ddr, dr))
-        v = np.einsum('ij...,j...->i...', gu, dr)
-        dv = (np.einsum('cij...,j...->ci...', dgu, dr)
-              + np.einsum('ij...,cj...->ci...', gu, ddr))
-        ds = dv / np.sqrt(n2) - 0.5 * np.einsum('i...,c...->ci...', v, dn2) / n2 ** 1.5
-        sup = v / np.sqrt(n2)
-        want = (np.einsum('ii...->...', ds)
-                + np.einsum('iik...,k...->...', ex['s_Gamma_udd3'], sup)
-                + np.einsum('ij...,i...,j...->...', ex['Kdown3'], sup, sup)
-                - ex['Ktrace'])
+        def expansion(x, y, z, ex):
+            r = np.sqrt(x * x + y * y + z * z)
+            X3 = np.array([x, y, z])
+            dr = X3 / r
+            ddr = (np.einsum('ij,...->ij...', np.eye(3), 1 / r)
+                   - np.einsum('i...,j...->ij...', X3, X3) / r ** 3)
+            X = (np.full(x.shape, t0), x, y, z)
+            adm = S.adm_from_gJ2(st.gJ2(X))
+            gu = ex['gammaup3']
+            dgu = np.array([[[adm['gammaup'][i][j].d[c + 1] for j in range(3)]
+                             for i in range(3)] for c in range(3)])     # [c,i,j]
+            n2 = np.einsum('ij...,i...,j...->...', gu, dr, dr)
+            dn2 = (np.einsum('cij...,i...,j...->c...', dgu, dr, dr)
+                   + 2 * np.einsum('ij...,ci...,j...->c...', gu, ddr, dr))
+            v = np.einsum('ij...,j...->i...', gu, dr)
+            dv = (np.einsum('cij...,j...->ci...', dgu, dr)
+                  + np.einsum('ij...,cj...->ci...', gu, ddr))
+            ds = dv / np.sqrt(n2) - 0.5 * np.einsum('i...,c...->ci...', v, dn2) / n2 ** 1.5
+            sup = v / np.sqrt(n2)
+            return (np.einsum('ii...->...', ds)
+                    + np.einsum('iik...,k...->...', ex['s_Gamma_udd3'], sup)
+                    + np.einsum('ij...,i...,j...->...', ex['Kdown3'], sup, sup)
+                    - ex['Ktrace'])
         close(res, f"{name}.null_ray_exp_out", tbucket,
-              M.null_ray_exp_out(t0, x, y, z), want, 1e-9)
+              M.null_ray_exp_out(t0, x, y, z), expansion(x, y, z, ex), 1e-9)
+        # the same inside the horizon (isotropic radius below M/2), where the
+        # areal radius decreases with r and the expansion changes sign
+        hz = 0.5 * float(M.M)
+        xi, yi, zi = (rng.uniform(0.1 * hz, 0.5 * hz, shp) * rng.choice([-1, 1], shp) for _ in range(3))
+        ex_in = S.exact_fields(st, t0, xi, yi, zi, Lam=Lam, kappa=kappa)
+        close(res, f"{name}.null_ray_exp_out inside the horizon", tbucket,
+              M.null_ray_exp_out(t0, xi, yi, zi), expansion(xi, yi, zi, ex_in), 1e-9)
+        close(res, f"{name}.Kretschmann inside the horizon", tbucket,
+              M.Kretschmann(t0, xi, yi, zi), ex_in['Kretschmann'], 1e-9)
     if name == 'Conformally_flat':
         close(res, f"{name}.st_RicciS", tbucket, M.st_RicciS(x), ex['st_RicciS'], 1e-9,
               scale=curv)
@@ -308,39 +323,45 @@ def _run_module(spec, res, tag_extra=""):
 def run_icpert(spec, res):
     """First-order initial data: K = -1/2 d_t gamma (exact on EdS) and the
     Hamiltonian residual is second order in the amplitude."""
-    from aurel.solutions import ICPertFLRW, EdS
+    from aurel.solutions import ICPertFLRW, EdS, LCDM
     rng = np.random.default_rng([int(spec['seed']), 171])
+    # background: Einstein-de Sitter, or LambdaCDM at times where Lambda matters
+    # (there Omega_m and the growth rate differ from 1)
+    use_lcdm = bool((int(spec['seed']) // 2) % 2)
+    BG = LCDM if use_lcdm else EdS
+    Lam = float(LCDM.Lambda) if use_lcdm else 0.0
     N, L = 16, 1821.0
     d = L / N
     fd = harness.make_fd(N, -L / 2, d, order=6, boundary='periodic')
-    t0 = float(EdS.t_today * rng.uniform(0.01, 0.05))
+    t0 = float(LCDM.t_today_EdS * rng.uniform(0.4, 1.5) if use_lcdm else EdS.t_today * rng.uniform(0.01, 0.05))
     lam = (L, L, L)
-    tag = f"t~{t0:.3g}"
+    tag = f"t~{t0:.3g} " + ("LCDM" if use_lcdm else "EdS")
     resid = []
     kk = 2 * np.pi / L
-    for amp in (1e-3, 5e-4):
+    amps = (2e-5, 1e-5) if use_lcdm else (1e-3, 5e-4)   # keep delta ~ 1e-2 at late times too
+    for amp in amps:
         Rc = ICPertFLRW.Rc_func(fd.x, fd.y, fd.z, (amp, amp * 0.7, amp * 1.3), lam)
         if spec['seed'] % 2 == 0:
             # a user-supplied perturbation with non-vanishing mixed derivatives
             Rc = Rc + amp * np.sin(kk * fd.x + 0.3) * np.cos(kk * fd.y) * np.sin(kk * fd.z - 0.2) \
                  + 0.5 * amp * np.sin(kk * (fd.x - fd.y + fd.z))
         with common.Quiet():
-            gam = ICPertFLRW.gammadown3(EdS, fd, t0, Rc)
-            K = ICPertFLRW.Kdown3(EdS, fd, t0, Rc)
+            gam = ICPertFLRW.gammadown3(BG, fd, t0, Rc)
+            K = ICPertFLRW.Kdown3(BG, fd, t0, Rc)
             h = t0 * 1e-3
             w = {1: 4 / 5, 2: -1 / 5, 3: 4 / 105, 4: -1 / 280}
-            dtg = sum(c * (ICPertFLRW.gammadown3(EdS, fd, t0 + k * h, Rc)
-                           - ICPertFLRW.gammadown3(EdS, fd, t0 - k * h, Rc))
+            dtg = sum(c * (ICPertFLRW.gammadown3(BG, fd, t0 + k * h, Rc)
+                           - ICPertFLRW.gammadown3(BG, fd, t0 - k * h, Rc))
                       for k, c in w.items()) / h
-        if amp == 1e-3:
+        if amp == amps[0] and not use_lcdm:      # (exact on EdS only: F is constant there)
             # per component class, each relative to the size of its own perturbation part
             pert = np.abs(K - K.mean(axis=(-1, -2, -3), keepdims=True)).max()
-            close(res, "ICPertFLRW.Kdown3 = -1/2 d_t gammadown3 (EdS)", tag, K, -0.5 * dtg,
+            close(res, "ICPertFLRW.Kdown3 = -1/2 d_t gammadown3", tag, K, -0.5 * dtg,
                   1e-6, scale=pert)
         with common.Quiet():
-            delta = ICPertFLRW.delta1(EdS, fd, t0, Rc)
+            delta = ICPertFLRW.delta1(BG, fd, t0, Rc)
             rel = harness.make_rel(fd, {'gammadown3': gam, 'Kdown3': K,
-                                        'rho': EdS.rho(t0) * (1 + delta)})
+                                        'rho': BG.rho(t0) * (1 + delta)}, Lambda=Lam)
             H = np.array(rel['Hamiltonian'])
             sc = np.array(rel['Hamiltonian_Escale'])
         resid.append(float(np.abs(H).max() / np.abs(sc).max()))
